@@ -64,8 +64,27 @@ pub fn check_bytes(bytes: &[u8], st: &mut Stats, decoded: &dyn Fn() -> String) -
     let rp = ref_parse(bytes);
     let clean = matches!(rp.end, End::Clean | End::Stray(_)) && rp.header.is_ok();
     if !clean {
-        // acceptance itself is C03's subject
-        st.count("skipped_reference_parser_rejects");
+        // Acceptance itself is C03's subject. The loader accepted the stream nevertheless, so
+        // the model-free core of the statement still binds: the output's instructions are the
+        // input's (compared by their first words, as multisets) and nothing is added or lost.
+        st.count("loader_accepts_what_reference_parser_rejects");
+        if bytes.len() % 4 == 0 && bytes.len() >= 20 {
+            let inw = bytes_to_words(bytes);
+            let out = no_panic("Module::assemble", || module.assemble()).map_err(wrap)?;
+            if let (Some(a), Some(b)) = (split_insts(&inw[5..]), split_insts(out.get(5..).unwrap_or(&[]))) {
+                let mut fa: Vec<u32> = a.iter().map(|i| i[0]).collect();
+                let mut fb: Vec<u32> = b.iter().map(|i| i[0]).collect();
+                fa.sort();
+                fb.sort();
+                if fa != fb {
+                    return Err(wrap(Fail::new(
+                        "instruction-count",
+                        if fb.len() < fa.len() { "dropped" } else { "invented" },
+                        format!("input has {} instructions, output {} (compared by first words)", fa.len(), fb.len()),
+                    )));
+                }
+            }
+        }
         return Ok(());
     }
     let header = rp.header.unwrap();
@@ -102,9 +121,18 @@ pub fn check_bytes(bytes: &[u8], st: &mut Stats, decoded: &dyn Fn() -> String) -
         }
         R2::DontCare { .. } => None,
         R2::Reject { .. } => {
-            // structure acceptance is C05's subject
-            st.count("skipped_layout_model_rejects");
-            return Ok(());
+            // Whether this stream may be accepted is C05's subject; but the loader did accept
+            // it, so the part of the statement that needs no placement model still binds:
+            // nothing dropped, duplicated or invented, header kept, reload equal.
+            st.count("loader_accepts_what_layout_model_rejects");
+            let mm = names.iter().filter(|n| **n == "MemoryModel").count();
+            let first_fn = names.iter().position(|n| *n == "Function").unwrap_or(names.len());
+            if mm > 1 || names[first_fn..].iter().any(|n| *n == "Line" || *n == "NoLine") {
+                // the two documented exclusions cannot be decided without a placement
+                st.count("excluded_undecidable_without_placement");
+                return Ok(());
+            }
+            None
         }
     };
     // F2: a typed literal consumer that the layout hoists in front of the instruction its
@@ -199,7 +227,7 @@ pub fn check_bytes(bytes: &[u8], st: &mut Stats, decoded: &dyn Fn() -> String) -
             if a != b {
                 return Err(wrap(Fail::new(
                     "instruction-multiset",
-                    "dontcare-placement",
+                    if matches!(r2, R2::Reject { .. }) { "loader-accepts-what-the-layout-model-rejects" } else { "dontcare-placement" },
                     "output instructions are not a permutation of the input instructions".to_string(),
                 )));
             }
@@ -245,6 +273,11 @@ pub fn check_bytes(bytes: &[u8], st: &mut Stats, decoded: &dyn Fn() -> String) -
     }
     st.count("accepted_checked");
     Ok(())
+}
+
+/// `modules` with result ids occasionally 0 / 0x7fffffff / 0x80000000 / 0xffffffff
+fn sub_edge_ids(input: &[u8], st: &mut Stats) -> R {
+    with_edge_ids(|| sub_modules(input, st))
 }
 
 fn sub_modules(input: &[u8], st: &mut Stats) -> R {
@@ -315,6 +348,7 @@ pub const SUBS: &[Sub] = &[
     Sub { name: "fixed", f: sub_fixed },
     Sub { name: "sweep", f: sub_sweep },
     Sub { name: "modules", f: sub_modules },
+    Sub { name: "edge-ids", f: sub_edge_ids },
 ];
 
 pub fn run(ctx: &Ctx) {
@@ -322,6 +356,7 @@ pub fn run(ctx: &Ctx) {
     drive_enum(ctx, &SUBS[0], 1);
     drive_enum(ctx, &SUBS[1], sweep::cases().len() as u64);
     drive_random(ctx, &SUBS[2], ctx.n(40_000, 20_000_000), 1600);
+    drive_random(ctx, &SUBS[3], ctx.n(10_000, 5_000_000), 1600);
     if !ctx.quick() && !ctx.failed() {
         crate::fuzzing::drive_fuzz(ctx, "modules", 300_000);
     }
